@@ -1,1 +1,56 @@
-(* C09 - to be filled *)
+(* C09 - requested alignments are honoured in the linked image: the vocabulary of the link-level
+   statements (shared with C05, C02, C01). *)
+From Slinky Require Import Model.Types Model.Script Model.Writer Model.LdSem.
+From Coq Require Import ZArith Sorted.
+Local Open Scope Z_scope.
+
+(* the object universe is sane: no input section has a negative size *)
+Definition nonneg_sizes (l : list usec) : Prop := Forall (fun u => 0 <= u_size u) l.
+
+(* what an optional alignment does to a position: null / absent adds no alignment *)
+Definition opt_aligned (a : option N) (x : Z) : Z :=
+  match a with Some n => align_up x (Z.of_N n) | None => x end.
+
+(* "x honours the optional alignment a" *)
+Definition honours (a : option N) (x : Z) : Prop :=
+  match a with Some n => (Z.of_N n | x) | None => True end.
+
+(* two alignment values are compatible when one divides the other (always the case for powers of two) *)
+Definition compatible (a b : Z) : Prop := (a | b) \/ (b | a).
+
+(* the ALIGN statements among a list of statements (not looking inside output sections) *)
+Definition is_align (s : stmt) : bool := match s with SAlign _ _ => true | _ => false end.
+Definition aligns_of (l : list stmt) : list stmt := filter is_align l.
+
+(* the two statements emitted for a segment-level alignment *)
+Definition segment_align_stmts (a : option N) : list stmt :=
+  match a with Some n => [SAlign "__romPos" n; SAlign "." n] | None => [] end.
+
+(* the SUBALIGN attribute of the output sections at the top of a statement list *)
+Definition outsec_subaligns (l : list stmt) : list (option N) :=
+  flat_map (fun s => match s with SOutSec _ _ _ _ sub _ => [sub] | _ => [] end) l.
+
+(* the placements that a piece of execution appended to l_placed *)
+Definition appended (before after : list placement) (new : list placement) : Prop :=
+  after = (before ++ new)%list.
+
+(* addresses never decrease along the list *)
+Definition nondecreasing (l : list Z) : Prop := StronglySorted Z.le l.
+
+(* ---------- sample data for the Examples ---------- *)
+Local Open Scope string_scope.
+
+Definition c09_obj (p : string) : file_info :=
+  FileInfo p KObject "" 0%N "" "" [] [] "" no_conds KAbsent.
+
+(* section_start_align 16, .data additionally 8 at its start and 32 at its end, subalign 4 *)
+Definition c09_segment : segment :=
+  Segment "boot" [c09_obj "a.o"; c09_obj "b.o"] None None None None "" None no_conds
+          [".text"; ".data"] [".bss"] (Some 4%N)
+          (Some 4096%N) (Some 16%N) (Some 16%N) None [(".data", 8%N)] [(".data", 32%N)] true None [] KAbsent.
+
+Definition c09_universe : list usec :=
+  [USec "a.o" None ".text" 10 4 false "a_text"; USec "a.o" None ".data" 3 1 false "a_data";
+   USec "b.o" None ".text" 6 2 false "b_text"; USec "b.o" None ".bss" 5 8 true "b_bss"].
+
+Definition c09_state : lstate := LState 100 [("__romPos", 7)] [] [] [] c09_universe [] [].
